@@ -833,6 +833,7 @@ func (e *kvElection) StopWithContext(ctx context.Context, opts StopOptions) erro
 	wasLeader := e.isLeader.Load()
 	wg := e.wg
 	token := e.Token()
+	run := e.ctx
 
 	currentState := StateInit
 	if s := e.state.Load(); s != nil {
@@ -907,8 +908,13 @@ func (e *kvElection) StopWithContext(ctx context.Context, opts StopOptions) erro
 		return ctx.Err()
 	}
 
+	// Only the run this call has stopped is cleared: a Start that came in while
+	// this call was waiting has installed a new run, and wiping that one's
+	// context would leave it running with nothing able to stop it any more.
 	e.mu.Lock()
-	e.ctx = nil
+	if e.ctx == run {
+		e.ctx = nil
+	}
 	e.mu.Unlock()
 
 	log := e.getLogger()
